@@ -421,17 +421,36 @@ class Gen:
             if last and rng.random() < 0.35:
                 shape = [1, z] if len(shape) == 1 else shape
                 spm = True
-            if not spm and r > 0.88 and len(shape) == 1:
+            room = None
+            if not spm and len(shape) == 1 and rng.random() < 0.5:
+                # a free stretch of a container that an EARLIER module already fills partly (one pre-allocated vector
+                # assembled by several modules through slice outputs)
+                for cb, free in getattr(self, "containers", {}).items():
+                    starts = [a for a in range(len(free) - z + 1) if all(free[a:a + z])]
+                    # (not once a module has READ the container: it would see the later writer's entries of the previous
+                    # evaluation, the network would not be a function of its inputs any more)
+                    if starts and cb not in self.consumed and cb not in [self.sigs[s_]["base"] for s_ in ins]:
+                        room = (cb, rng.choice(starts))
+                        break
+            if room is not None:
+                b, s0 = room
+                for e in range(s0, s0 + z):
+                    self.containers[b][e] = False
+                sid = self.sig(b, [s0, s0 + z])
+            elif not spm and r > 0.85 and len(shape) == 1:
                 # slice of a fresh container (state pre-allocated)
-                nn = z + rng.randint(1, 2)
+                nn = z + rng.randint(1, 4)
                 b = self.new_base([nn], [num(rng, self.cx, pow2=self.rel) for _ in range(nn)])
                 s0 = rng.randint(0, nn - z)
                 sid = self.sig(b, [s0, s0 + z])
+                if not hasattr(self, "containers"):
+                    self.containers = {}
+                self.containers[b] = [not (s0 <= e < s0 + z) for e in range(nn)]
             else:
                 b = self.new_base(shape, None, sparse=spm)
                 sid = self.sig(b, None)
             self.writer[b] = mi
-            self.deg[b] = max(dg, 1)
+            self.deg[b] = max(dg, 1, self.deg.get(b, 1) if room is not None else 1)
             self.readable.append(b)
             outs.append(sid)
             shapes.append(shape)
